@@ -177,13 +177,26 @@ func findRewrites(
 	slices.SortFunc(rewrites, (*LegacyRewrite).Compare)
 
 	for i, r := range rewrites {
-		if isWildcard(r.Domain) {
-			// Don't use rewrites[:0], because we need to return at least one
-			// item here.
-			rewrites = rewrites[:max(1, i)]
-
-			break
+		if !isWildcard(r.Domain) {
+			continue
 		}
+
+		if i == 0 {
+			// There are no exact matches, so return all entries of the most
+			// specific wildcard that are of the same kind as the first one,
+			// regardless of their order.
+			isCNAME := r.Type == dns.TypeCNAME
+			for i = 1; i < len(rewrites); i++ {
+				rw := rewrites[i]
+				if rw.Domain != r.Domain || (rw.Type == dns.TypeCNAME) != isCNAME {
+					break
+				}
+			}
+		}
+
+		rewrites = rewrites[:i]
+
+		break
 	}
 
 	return rewrites, matched
